@@ -21,6 +21,7 @@ def sub_cmd(M, loc, pat, rep, g):
         raise mx.Reject('empty')
     a, b = M.region(loc)
     ast = mx.parse_simple_re(pat)
+    M.lastpat = ast
     for i in range(a - 1, b):
         res, fl = c14.model_subst(M.lines[i].text, ast, rep, g, M.icase)
         if fl['emptyloop']:
@@ -57,7 +58,13 @@ def model_glob(M, loc, pat, negate, cmds, nested=False):
     if pat in INVALID:
         raise mx.Reject('pattern does not compile')
     a, b = M.region(loc if (loc or nested) else '%')
-    ast = mx.parse_simple_re(pat)
+    if pat == '':           # empty pattern: the last pattern used (by a search address, a substitute or a global)
+        if getattr(M, 'lastpat', None) is None:
+            raise mx.Reject('no previous pattern')
+        ast = M.lastpat
+    else:
+        ast = mx.parse_simple_re(pat)
+        M.lastpat = ast
     ids = [l.id for l in M.lines[a - 1:b]]
     M.executions = getattr(M, 'executions', 0)
     for lid in ids:
@@ -177,6 +184,12 @@ def run_case(args):
                            ('', R.choice(PATS), [{'cmd': 'g', 'loc': '', 'pat': '(b', 'list': [{'cmd': 'd', 'loc': ''}]}])])
             badfirst.append(fp)
             pre += ('%sg/%s/%s\n' % (fp[0], fp[1], render_list(fp[2]))).encode()
+    setpat = None
+    if not big and R.random() < 0.08 and '/' not in loc and '?' not in loc:
+        # the global is written with an empty pattern: it uses the pattern of an earlier command
+        setpat = R.choice(['a', 'o', 'x', 'foo'])
+        pre = (pre or b'') + b'1s/%s/%s/\n' % (setpat.encode(), setpat.encode())
+        pat = ''
     gcmd = ('%s%s/%s/%s\n' % (loc, 'v' if neg else 'g', pat, render_list(cmds))).encode()
     # model first (to know how many text blocks the executions will read)
     M = mx.Ex(lines, icase=True)
@@ -200,6 +213,8 @@ def run_case(args):
         M.cur = max(0, min(M.cur, M.n() - 1))
         if (a > M.n() or b > M.n()) and loc not in ('', '%'):
             return ('cut', None, None, 0)
+    if setpat:
+        M.lastpat = mx.parse_simple_re(setpat)       # (pre ends with the substitute that sets it)
     prefail = b''
     if not big and M.n() and R.random() < 0.1:
         # a command line that edits and then fails, directly in front of the global: the global is still an undo step of its own
